@@ -45,7 +45,7 @@ ASSUMPTIONS = [
     "pattern and on constrained rows/columns must be exactly zero (the code never stores them)",
     "element matrices: the integrands are polynomials of degree <=2 per coordinate, so both the code's 2-point and "
     "the reference 3-point Gauss rule are exact; difference = rounding (measured <=3e-16 relative to max|K_e|)",
-    "PSD: lambda_min(sym K) >= -1e-11*||S||_inf (backward error of eigvalsh ~ n*eps*||K||_2, n<=1100)",
+    "PSD: lambda_min(sym K) >= -1e-11*||S||_inf (backward error of eigvalsh ~ n*eps*||K||_2 <= 3.4e-13*||K||_2 for n<=1536)",
     "rigid-body / null-space residuals: |K u|_i <= 1e-11*(S|u|)_i; mass and energy: 1e-11 * sum of absolute terms",
     "boundary conditions are SETS of dof indices (lists / int arrays, any order, possibly empty or all dofs); "
     "duplicated indices are outside the quantifier (the code then sums bcdiagval per duplicate)",
@@ -55,8 +55,10 @@ ASSUMPTIONS = [
     "bcdiagval*I_bc + C (constant added after the boundary conditions, as documented and used by the examples)",
     "matrix_type: constructors accepting ((vals,(rows,cols)), shape=...): csc/csr/coo matrix and csc/csr array",
     "nu in (-0.5, 0.49], element sizes 0.02..8, E 1e-6..2.1e11, 1D domains and custom node_numbering excluded",
-    "bounds: quick 2D<=6x6, 3D<=3^3 (+random up to 9x9 / 4^3); thorough 2D<=11x11, 3D<=5^3 (+random 16x16 / 6^3)",
+    "bounds: quick 2D<=6x6, 3D<=3^3 (+random up to 9x9 / 4^3); thorough 2D<=14x14, 3D<=6^3 (+random 18x18 / 7^3)",
 ]
+
+
 def _floors(scale):
     f = {"cases_held": 330, "distinct_nontrivial": 330, "matrices_compared": 11000, "entries_compared": 18_000_000,
          "instances": 5000, "history_calls": 11000, "psd_checks": 240, "rbm_modes_checked": 1100,
@@ -90,15 +92,15 @@ def plan(tier, seed):
                     for const in CONST_KINDS:
                         cases.append({"part": "opts", "kind": kind, "n": n, "bc": bc, "const": const})
     # ---- part 'grid': every grid up to the bound
-    b2, b3 = (6, 3) if quick else (11, 5)
+    b2, b3 = (6, 3) if quick else (14, 6)
     grids = [[i, j, 0] for i in range(1, b2 + 1) for j in range(1, b2 + 1)]
     grids += [[i, j, k] for i in range(1, b3 + 1) for j in range(1, b3 + 1) for k in range(1, b3 + 1)]
     for kind in KINDS:
         for g, n in enumerate(grids):
             cases.append({"part": "grid", "kind": kind, "n": n, "g": g, "corner": CORNERS[g % len(CORNERS)]})
     # ---- part 'rand': seed-dependent grids x hostile corners
-    reps = 2 if quick else 8
-    m2, m3 = (9, 4) if quick else (16, 6)
+    reps = 2 if quick else 12
+    m2, m3 = (9, 4) if quick else (18, 7)
     for kind in KINDS:
         for corner in CORNERS:
             for r in range(reps):
